@@ -17,12 +17,15 @@ fn judge_pair(ctx: &mut Ctx, z: &dyn ZOrderCurve, tag: &str, depth: u8, i: u32, 
   let want = interleave(i, j);
   ctx.evals_n(4);
   let mk = |what: &str| Case::new("pair").s("impl", tag).u("depth", depth as u64).u("i", i as u64).u("j", j as u64).s("what", what);
-  let h = z.ij2h(i, j);
+  // one guarded call for the four methods (a panic on a legal value is a violation, not a harness failure)
+  let (h, gi, gj, hi, hj) = match catch(|| { let ij = z.h2ij(want); (z.ij2h(i, j), z.ij2i(ij), z.ij2j(ij), z.i02h(i), z.oj2h(j)) }) {
+    Ok(t) => t,
+    Err(p) => { ctx.violation("z-order-curve-panics-on-a-legal-value", mk("panic"), p); return; }
+  };
   if h != want { ctx.violation("ij2h-differs-from-bit-interleave", mk("ij2h"), format!("got {:#x} want {:#x}", h, want)); }
-  let ij = z.h2ij(want);
-  if depth > 0 && (z.ij2i(ij) != i || z.ij2j(ij) != j) { ctx.violation("h2ij-does-not-invert", mk("h2ij"), format!("h={:#x} -> ({}, {})", want, z.ij2i(ij), z.ij2j(ij))); }
-  if z.i02h(i) != interleave(i, 0) { ctx.violation("i02h-differs", mk("i02h"), format!("got {:#x} want {:#x}", z.i02h(i), interleave(i, 0))); }
-  if z.oj2h(j) != interleave(0, j) { ctx.violation("oj2h-differs", mk("oj2h"), format!("got {:#x} want {:#x}", z.oj2h(j), interleave(0, j))); }
+  if depth > 0 && (gi != i || gj != j) { ctx.violation("h2ij-does-not-invert", mk("h2ij"), format!("h={:#x} -> ({}, {})", want, gi, gj)); }
+  if hi != interleave(i, 0) { ctx.violation("i02h-differs", mk("i02h"), format!("got {:#x} want {:#x}", hi, interleave(i, 0))); }
+  if hj != interleave(0, j) { ctx.violation("oj2h-differs", mk("oj2h"), format!("got {:#x} want {:#x}", hj, interleave(0, j))); }
 }
 
 fn lanes(depth: u8) -> u32 { ((depth as u32) + 7) / 8 }
